@@ -24,32 +24,9 @@ def _discharge(ob, tier):
     tmo = 10000 if tier == 'quick' else 60000
     q = ob.query()
     t0 = time.time()
-    try:
-        v, solver = smt.check_z3(q, tmo)
-    except z3.Z3Exception as e:
-        v = smt.Verdict('unknown', 'z3', time.time() - t0, reason=str(e))
-        solver = None
-    res = {'status': v.status, 'backend': v.backend, 'seconds': round(v.seconds, 4), 'reason': v.reason, 'model': None}
-    if v.status == 'sat' and v.model is not None:
-        md = {}
-        for d in v.model.decls():
-            try:
-                if d.arity() == 0:
-                    val = v.model[d]
-                    if val.sort() == smt.Bytes:
-                        bs = _seq_bytes(val)
-                        md[d.name()] = {'bytes_hex': bytes(bs).hex(), 'len': len(bs)} if bs is not None else str(val)[:200]
-                        continue
-                    if z3.is_int_value(val):
-                        md[d.name()] = val.as_long()
-                        continue
-                    if z3.is_true(val) or z3.is_false(val):
-                        md[d.name()] = z3.is_true(val)
-                        continue
-                md[d.name()] = str(v.model[d])[:400]
-            except Exception:
-                pass
-        res['model'] = md
+    fr = smt.check_forked(q, tmo, want_model=True)
+    v = smt.Verdict(fr['status'], 'z3', fr['seconds'], reason=fr.get('reason', ''))
+    res = {'status': v.status, 'backend': v.backend, 'seconds': round(v.seconds, 4), 'reason': v.reason, 'model': fr.get('model')}
     if v.status == 'unknown':
         try:
             c = smt.check_cvc5(q, tmo)
@@ -228,6 +205,7 @@ def run_mutants(prop_id, mod, a, ctx, idxs):
             out['not_applicable'].append(desc)
             continue
         msrc = src_n.replace(old, new)
+        tm0 = time.time()
         jobs = [(prop_id, i, 'quick', a.repo, {rel: msrc}) for i in idxs]
         with ctx.Pool(min(a.jobs, max(1, len(jobs)))) as pool:
             results = pool.map(_verify_lemma, jobs, chunksize=1)
@@ -236,7 +214,8 @@ def run_mutants(prop_id, mod, a, ctx, idxs):
         out['tried'] += 1
         if refuted:
             out['refuted'] += 1
-            out['details'].append({'mutant': desc, 'refuted_obligation': refuted[0]['id'], 'text': refuted[0]['text']})
+            out['details'].append({'mutant': desc, 'refuted_obligation': refuted[0]['id'], 'text': refuted[0]['text'],
+                                   'seconds': round(time.time() - tm0, 1)})
         else:
             out['accepted'].append({'mutant': desc, 'undecided': [str(u)[-300:] for u in und]})
     return out
